@@ -259,6 +259,9 @@ pub enum DbOp {
     Snapshot,
     /// one atomic batch: (key, Some(value)) = put, (key, None) = delete
     Batch(Vec<(Vec<u8>, Option<Vec<u8>>)>),
+    /// create an iterator now (it pins the current state) and read it only at the END of the history;
+    /// the flag positions it on the first entry right away (so the first file is already open)
+    PinIterator(bool),
 }
 
 fn make_batch(ops: &[(Vec<u8>, Option<Vec<u8>>)]) -> crate::Batch {
@@ -285,6 +288,7 @@ pub fn run_history(ops: &[DbOp], keys: &[Vec<u8>]) -> Vec<String> {
             DbOp::Flush => db.as_ref().unwrap().force_memtable_compaction().unwrap(),
             DbOp::CompactAll => db.as_ref().unwrap().compact_range(None..None),
             DbOp::Snapshot => {}
+            DbOp::PinIterator(_) => {}
             DbOp::Batch(ops) => db.as_ref().unwrap().apply(WriteOptions::default(), make_batch(ops)).unwrap(),
             DbOp::Reopen(reuse) => {
                 drop(db.take());
@@ -320,6 +324,22 @@ pub struct View {
     pub scripts: Vec<Vec<String>>,
 }
 
+/// What an iterator created in the middle of the history (op index) shows when it is finally read:
+/// a forward scan (after `seek_to_first`, or continuing from where it was positioned) and a backward scan.
+pub struct PinnedScan {
+    pub taken_at: usize,
+    pub forward: Vec<(Vec<u8>, Vec<u8>)>,
+    pub backward: Vec<(Vec<u8>, Vec<u8>)>,
+}
+
+pub fn run_views_and_pins(ops: &[DbOp], keys: &[Vec<u8>], moves: &str) -> (Vec<View>, Vec<PinnedScan>) {
+    PINS.with(|p| p.borrow_mut().clear());
+    let views = run_views(ops, keys, moves);
+    let pins = PINS.with(|p| std::mem::take(&mut *p.borrow_mut()));
+    (views, pins)
+}
+thread_local! { static PINS: std::cell::RefCell<Vec<PinnedScan>> = std::cell::RefCell::new(vec![]); }
+
 /// Cursor scripts run on a fresh iterator for every key of interest: F = seek_to_first, L = seek_to_last,
 /// S = seek(key), n = next, p = prev (a step on an invalid cursor ends the script).
 pub const SCRIPTS: [&str; 5] = ["LpSp", "FnSn", "Spn", "Snp", "LSpp"];
@@ -335,8 +355,16 @@ pub fn run_views(ops: &[DbOp], keys: &[Vec<u8>], moves: &str) -> Vec<View> {
     options.create_if_missing = true;
     let mut db = Some(DB::open(options.clone()).unwrap());
     let mut snaps: Vec<(usize, crate::Snapshot)> = vec![];
+    let mut pinned: Vec<(usize, bool, crate::iterator::DatabaseIterator, crate::iterator::DatabaseIterator)> = vec![];
     for (i, op) in ops.iter().enumerate() {
         match op {
+            DbOp::PinIterator(positioned) => {
+                let d = db.as_ref().unwrap();
+                let mut a = d.new_iterator(ReadOptions::default()).unwrap();
+                let mut b = d.new_iterator(ReadOptions::default()).unwrap();
+                if *positioned { a.seek_to_first().unwrap(); let _ = b.seek_to_last(); }
+                pinned.push((i, *positioned, a, b));
+            }
             DbOp::Put(k, v) => db.as_ref().unwrap().put(WriteOptions::default(), k.clone(), v.clone()).unwrap(),
             DbOp::Delete(k) => db.as_ref().unwrap().delete(WriteOptions::default(), k.clone()).unwrap(),
             DbOp::Flush => db.as_ref().unwrap().force_memtable_compaction().unwrap(),
@@ -345,12 +373,33 @@ pub fn run_views(ops: &[DbOp], keys: &[Vec<u8>], moves: &str) -> Vec<View> {
             DbOp::Batch(ops) => db.as_ref().unwrap().apply(WriteOptions::default(), make_batch(ops)).unwrap(),
             DbOp::Reopen(reuse) => {
                 snaps.clear();
+                pinned.clear();
                 drop(db.take());
                 options.reuse_log_files = *reuse;
                 options.create_if_missing = false;
                 db = Some(DB::open(options.clone()).unwrap());
             }
         }
+    }
+    // pinned iterators are read now, after everything else happened
+    for (i, positioned, mut a, mut b) in pinned.drain(..) {
+        let mut forward = vec![];
+        if !positioned { a.seek_to_first().unwrap(); }
+        while a.is_valid() {
+            let (k, v) = a.current().unwrap();
+            forward.push((k.clone(), v.clone()));
+            a.next();
+        }
+        let mut backward = vec![];
+        let ok = if positioned { true } else { b.seek_to_last().is_ok() };
+        if ok {
+            while b.is_valid() {
+                let (k, v) = b.current().unwrap();
+                backward.push((k.clone(), v.clone()));
+                b.prev();
+            }
+        }
+        PINS.with(|p| p.borrow_mut().push(PinnedScan { taken_at: i, forward, backward }));
     }
     let d = db.as_ref().unwrap();
     let mut views = vec![];
